@@ -521,7 +521,7 @@ class CompGen:
       # whole target first, then one piece of it (one or two levels down) again in the same block:
       # the block is the writer of the whole AND of the piece (writer bookkeeping of nets that tap a
       # sibling piece must still find the whole-signal writer)
-      if not P["translatable"] and path[-1][0] in ("a", "i") and c.random() < P.get("p_override", 0.15):
+      if path[-1][0] in ("a", "i") and c.random() < P.get("p_override", 0.15):
         pc = self.sub_piece(path, t)
         if pc is not None:
           stmts.append(["assign", pc[0], self.expr(pc[1], 2, env)])
